@@ -333,7 +333,7 @@ def write_replay(machine, seed, index, case, tape, strict, res, outdir):
            'strict': strict, 'violation': res['violation'],
            'trace_digest': res['digest'], 'minimised': True}
     with open(path, 'w') as f:
-        json.dump(doc, f, indent=1, sort_keys=True)
+        json.dump(doc, f, indent=1, sort_keys=True, default=_jd)
     return path
 
 
@@ -348,7 +348,7 @@ def write_crash_replay(machine, seed, index, case, how, outdir):
                          'detail': f'the code under test took the '
                          f'interpreter down or hung ({how})'}}
     with open(path, 'w') as f:
-        json.dump(doc, f, indent=1, sort_keys=True)
+        json.dump(doc, f, indent=1, sort_keys=True, default=_jd)
     return path
 
 
@@ -474,7 +474,7 @@ def write_evidence(machine, tier, seed, results, errors, wall, extra,
            'violations': nviol}
     os.makedirs(os.path.dirname(path), exist_ok=True)
     with open(path, 'w') as f:
-        json.dump(doc, f, indent=1, sort_keys=True)
+        json.dump(doc, f, indent=1, sort_keys=True, default=_jd)
     return doc
 
 
